@@ -16,6 +16,7 @@ var knownImports = map[string]string{
 	"hash": "github.com/csgura/fp/hash", "monoid": "github.com/csgura/fp/monoid", "clone": "github.com/csgura/fp/clone",
 	"show": "github.com/csgura/fp/show", "hlist": "github.com/csgura/fp/hlist",
 	"strings": "strings", "sort": "sort", "fmt": "fmt", "os": "os", "reflect": "reflect", "testing": "testing",
+	"foldeq": modName + "/foldeq", "upshow": modName + "/upshow",
 	"debug": "runtime/debug", "unsafe": "unsafe", "sync": "sync", "syscall": "syscall", "time": "time", "strconv": "strconv",
 }
 
@@ -322,7 +323,176 @@ func emitPkg(p *Pkg) string {
 		if x.Recursive {
 			opt = "(recursive=true)"
 		}
-		fmt.Fprintf(&b, "// @fp.Derive%s\nvar _ %s.Derives[fp.%s[%s%s]]\n\n", opt, tcPkg[x.TC], tcName[x.TC], qual(x.Decl, p, x.Decl.Name), x.Decl.anyArgs())
+		fmt.Fprintf(&b, "// @fp.Derive%s\nvar _ %s.Derives[fp.%s[%s%s]]\n\n", opt, x.derivePkg(), tcName[x.TC], qual(x.Decl, p, x.Decl.Name), x.Decl.anyArgs())
 	}
 	return withImports(p, b.String())
+}
+
+// altDerivePkgs: derive packages of the scratch module itself (written next to the working packages
+// when a directive names one). Like the repository's own second derive packages (test/internal/show,
+// test/internal/read) they are COMPLETE: every combinator gombok asks a derive package for is declared,
+// as a wrapper of the library's - an incomplete one only works when an earlier directive of the run
+// happened to load the library's package (probed: with a package that declares nothing but Derives
+// and String, a directive that comes first refers to undeclared EqContraMap / EqHCons ...). The
+// String instances differ from the library's (case-insensitive equality; upper-case rendering
+// between marks), so picking the instance of the wrong derive package changes what the derived
+// instance does.
+var altDerivePkgs = map[string]string{"foldeq": foldeqSrc(), "upshow": upshowSrc()}
+
+func typeArgsN(n int) string {
+	var as []string
+	for i := 1; i <= n; i++ {
+		as = append(as, fmt.Sprintf("A%d", i))
+	}
+	return strings.Join(as, ", ")
+}
+
+func insArgsN(n int, tc string) (decl, use string) {
+	var ds, us []string
+	for i := 1; i <= n; i++ {
+		ds = append(ds, fmt.Sprintf("ins%d fp.%s[A%d]", i, tc, i))
+		us = append(us, fmt.Sprintf("ins%d", i))
+	}
+	return strings.Join(ds, ", "), strings.Join(us, ", ")
+}
+
+func foldeqSrc() string {
+	var b strings.Builder
+	b.WriteString(`// Package foldeq is a derive package for fp.Eq: strings are compared ignoring case, everything else
+// is the library's eq package.
+package foldeq
+
+import (
+	"strings"
+	"time"
+
+	"github.com/csgura/fp"
+	"github.com/csgura/fp/eq"
+	"github.com/csgura/fp/hlist"
+	"github.com/csgura/fp/lazy"
+)
+
+type Derives[T any] interface {
+	Target() T
+}
+
+var String fp.Eq[string] = eq.New(strings.EqualFold)
+
+var Time fp.Eq[time.Time] = eq.Time
+
+var Bytes fp.Eq[[]byte] = eq.Bytes
+
+var HNil fp.Eq[hlist.Nil] = eq.HNil
+
+func Given[T comparable]() fp.Eq[T] { return eq.Given[T]() }
+
+func ContraMap[T, U any](instance fp.Eq[T], fn func(U) T) fp.Eq[U] { return eq.ContraMap(instance, fn) }
+
+func HCons[H any, T hlist.HList](heq fp.Eq[H], teq fp.Eq[T]) fp.Eq[hlist.Cons[H, T]] {
+	return eq.HCons(heq, teq)
+}
+
+func Option[T any](e fp.Eq[T]) fp.Eq[fp.Option[T]] { return eq.Option(e) }
+
+func Seq[T any](e fp.Eq[T]) fp.Eq[fp.Seq[T]] { return eq.Seq(e) }
+
+func Slice[T any](e fp.Eq[T]) fp.Eq[[]T] { return eq.Slice(e) }
+
+func Ptr[T any](e lazy.Eval[fp.Eq[T]]) fp.Eq[*T] { return eq.Ptr(e) }
+
+func GoMap[K comparable, V any](eqV fp.Eq[V]) fp.Eq[map[K]V] { return eq.GoMap[K](eqV) }
+
+func FpMap[K, V any](eqV fp.Eq[V]) fp.Eq[fp.Map[K, V]] { return eq.FpMap[K](eqV) }
+
+`)
+	for n := 1; n <= 21; n++ {
+		d, u := insArgsN(n, "Eq")
+		fmt.Fprintf(&b, "func Tuple%d[%s any](%s) fp.Eq[fp.Tuple%d[%s]] {\n\treturn eq.Tuple%d(%s)\n}\n\n", n, typeArgsN(n), d, n, typeArgsN(n), n, u)
+	}
+	return b.String()
+}
+
+func upshowSrc() string {
+	var b strings.Builder
+	b.WriteString(`// Package upshow is a derive package for fp.Show: strings are rendered in upper case between marks,
+// everything else is the library's show package.
+package upshow
+
+import (
+	"fmt"
+	"strings"
+	"time"
+
+	"github.com/csgura/fp"
+	"github.com/csgura/fp/hlist"
+	"github.com/csgura/fp/lazy"
+	"github.com/csgura/fp/show"
+)
+
+type Derives[T any] interface {
+	Target() T
+}
+
+var String fp.Show[string] = show.New(func(s string) string {
+	return "\u27e6" + strings.ToUpper(s) + "\u27e7"
+})
+
+var Time fp.Show[time.Time] = show.Time
+
+var Bool fp.Show[bool] = show.Bool
+
+var HNil fp.Show[hlist.Nil] = show.HNil
+
+func Int[T fp.ImplicitInt]() fp.Show[T] { return show.Int[T]() }
+
+func Number[T fp.ImplicitNum]() fp.Show[T] { return show.Number[T]() }
+
+func Given[T fmt.Stringer]() fp.Show[T] { return show.Given[T]() }
+
+func ContraMap[T, U any](instance fp.Show[T], fn func(U) T) fp.Show[U] {
+	return show.ContraMap(instance, fn)
+}
+
+func Ptr[T any](tshow lazy.Eval[fp.Show[T]]) fp.Show[*T] { return show.Ptr(tshow) }
+
+func Seq[T any](tshow fp.Show[T]) fp.Show[fp.Seq[T]] { return show.Seq(tshow) }
+
+func Slice[T any](tshow fp.Show[T]) fp.Show[[]T] { return show.Slice(tshow) }
+
+func Option[T any](tshow fp.Show[T]) fp.Show[fp.Option[T]] { return show.Option(tshow) }
+
+func Set[V any](showv fp.Show[V]) fp.Show[fp.Set[V]] { return show.Set(showv) }
+
+func Map[K, V any](showk fp.Show[K], showv fp.Show[V]) fp.Show[fp.Map[K, V]] {
+	return show.Map(showk, showv)
+}
+
+func GoMap[K comparable, V any](showk fp.Show[K], showv fp.Show[V]) fp.Show[map[K]V] {
+	return show.GoMap(showk, showv)
+}
+
+func Named[T fp.NamedField[A], A any](ashow fp.Show[A]) fp.Show[T] { return show.Named[T](ashow) }
+
+func HConsLabelled[H fp.Named, T hlist.HList](hshow fp.Show[H], tshow fp.Show[T]) fp.Show[hlist.Cons[H, T]] {
+	return show.HConsLabelled(hshow, tshow)
+}
+
+func TupleHCons[H any, T hlist.HList](hshow fp.Show[H], tshow fp.Show[T]) fp.Show[hlist.Cons[H, T]] {
+	return show.TupleHCons(hshow, tshow)
+}
+
+func HCons[H any, T hlist.HList](hshow fp.Show[H], tshow fp.Show[T]) fp.Show[hlist.Cons[H, T]] {
+	return show.HCons(hshow, tshow)
+}
+
+func Generic[A, Repr any](gen fp.Generic[A, Repr], reprShow fp.Show[Repr]) fp.Show[A] {
+	return show.Generic(gen, reprShow)
+}
+
+`)
+	for n := 2; n <= 21; n++ {
+		d, u := insArgsN(n, "Show")
+		fmt.Fprintf(&b, "func Labelled%d[%s fp.Named](%s) fp.Show[fp.Labelled%d[%s]] {\n\treturn show.Labelled%d(%s)\n}\n\n", n, typeArgsN(n), d, n, typeArgsN(n), n, u)
+	}
+	return b.String()
 }
